@@ -1,6 +1,7 @@
 #!/bin/bash
 # development aid: apply the seeded defects of the given properties to the clean copy /var/tmp/repo-clean and run the E2 part of the check
 cd /verif
+export VERIF_EVIDENCE_DIR=/var/tmp/anemo-verif-matrix/evidence VERIF_REPLAY_DIR=/var/tmp/anemo-verif-matrix/replays; mkdir -p $VERIF_EVIDENCE_DIR $VERIF_REPLAY_DIR
 for id in "$@"; do
  for k in 1 2 3; do
   pf=/verif/seeded/$id-$k/patch.diff; [ -f $pf ] || continue
